@@ -78,7 +78,20 @@ fn const_value(d: &mut Dec, depth: u32) -> (Expr, Value) {
 }
 
 fn non_constant(d: &mut Dec) -> Expr {
-    match d.below(12) {
+    match d.below(24) {
+        // conversions and other built-ins applied to constants are calls, not constants
+        12 => Expr::datetime(Expr::value("2015-07-30T03:26:13Z".to_string())),
+        13 => Expr::Vec(vec![Expr::datetime(Expr::value("2015-07-30T03:26:13+02:00".to_string()))]),
+        14 => Expr::duration(Expr::value(60)),
+        15 => Expr::int(Expr::value("5".to_string())),
+        16 => Expr::Map([("k".to_string(), Expr::dec(Expr::value(1)))].into_iter().collect()),
+        17 => Expr::float(Expr::value(1)),
+        18 => Expr::some(Expr::value(1)),
+        19 => Expr::uppercase(Expr::value("a".to_string())),
+        20 => Expr::trim(Expr::value(" a ".to_string())),
+        21 => Expr::eq(Expr::value(1), Expr::value(1)),
+        22 => Expr::year(Expr::datetime(Expr::value("2015-07-30T03:26:13Z".to_string()))),
+        23 => Expr::index(Expr::Vec(vec![Expr::value(1)]), reval::expr::Index::Vec(0)),
         8 => Expr::neg(Expr::Value(Value::Int(i128::MIN))),
         9 => Expr::neg(Expr::Value(crate::pool::dec((1i128 << 96) - 1, 0))),
         10 => Expr::Vec(vec![Expr::neg(Expr::neg(Expr::Value(Value::Int(i128::MIN))))]),
@@ -155,7 +168,13 @@ fn build_script(bytes: &[u8]) -> Script {
                 let (e, v) = const_value(&mut d, 1);
                 (e, Some(v))
             } else {
-                let s = format!("Meta NAME {} İ", d.below(20));
+                // (the name is the string written: padding, tabs and line breaks inside the quotes belong to it)
+                let s = match d.below(8) {
+                    0 => format!(" padded {} ", d.below(20)),
+                    1 => format!("\ttab {}\n", d.below(20)),
+                    2 => format!("\u{a0}nbsp {}\u{a0}", d.below(20)),
+                    _ => format!("Meta NAME {} İ", d.below(20)),
+                };
                 (Expr::Value(Value::String(s.clone())), Some(Value::String(s)))
             }
         } else if d.below(8) == 0 {
